@@ -484,12 +484,14 @@ def run_schedule(cfg, choices, deviation_window=70, want_points=False, phases=Tr
         if not bad:
             sim.check_converged(bad, "after a node with a longer chain joined", sim.max_height)
     if not bad and phases:
-        continuation(sim, bad)
+        continuation(sim, bad, deep=not choices)
     return bad, points, sim
 
 
-def continuation(sim, bad):
-    """a fresh valid block handed to one node as an unsolicited delivery; then a transaction broadcast by one node"""
+def continuation(sim, bad, deep=False):
+    """a fresh valid block handed to one node as an unsolicited delivery; then a transaction broadcast by one node; then
+    (deep: on the default schedule of every configuration) that transaction is confirmed by a block, a longer competing
+    branch without it takes over, and another valid spend of the same output is broadcast"""
     uni = sim.uni
     # 1. fresh block on the common head, delivered to node 0 by an outside peer
     heads = {n.cm.coinstate.current_chain_hash for n in sim.nodes}
@@ -543,6 +545,40 @@ def continuation(sim, bad):
     for i, n in enumerate(sim.nodes):
         if tid not in [enc.txid(t) for t in n.cm.transaction_pool] and not bad:
             bad.append(('transaction-not-propagated', "a valid transaction broadcast by node 0 after heads agree did not reach node %d's pool" % i))
+    if bad or not deep or sim.the_tx is not None:
+        return
+    # 3. the transaction is confirmed; a longer branch without it takes over; a second spend of the same output is broadcast
+    try:
+        c1 = world.Node(world.assemble(hd, [tx], K[5], hd.ts + 120, cb_data=b'confirms'), hd, path=hd.path + ('confirm',))
+        f1 = world.Node(world.assemble(hd, [], K[4], hd.ts + 121, cb_data=b'fork 1'), hd, path=hd.path + ('fork1',))
+        f2 = world.Node(world.assemble(f1, [], K[4], f1.ts + 120, cb_data=b'fork 2'), f1, path=f1.path + ('fork2',))
+    except Exception:
+        return
+    sim.net.clock.t = max(sim.net.clock.t, f2.ts + 1)
+    h0 = sim.max_height + 1
+    for blk, hgt, label in ((c1, h0 + 1, "a block confirming the transaction"), (f1, h0 + 1, "the first block of a competing branch"),
+                            (f2, h0 + 2, "the second block of the competing branch")):
+        sim.in_handler = True
+        ext.send(DataMessage(DATA_BLOCK, world.from_wire(blk.block)))
+        sim.in_handler = False
+        sim.complete_fairly(bad, "after " + label, hgt)
+        if bad:
+            return
+    sim.check_converged(bad, "after a competing branch overtook the block that confirmed the transaction", h0 + 2, f2.bid)
+    if bad:
+        return
+    tx2 = world.mk_tx([(world.oref(r), key)], [(v - 25, K[1])])
+    if refmodel.validate_tx(tx2, f2.utxo):
+        return
+    sim.net.current = sim.nodes[0]
+    sim.nodes[0].nm.broadcast_transaction(tx2)
+    sim.nodes[0].flush()
+    sim.complete_fairly(bad, "after the second transaction broadcast", h0 + 2)
+    tid2 = enc.txid(tx2)
+    for i, n in enumerate(sim.nodes):
+        if tid2 not in [enc.txid(t) for t in n.cm.transaction_pool] and not bad:
+            bad.append(('transaction-not-propagated', "after a reorganisation that un-confirmed an earlier spend, another valid spend of "
+                        "the same output broadcast by node 0 did not reach node %d's pool" % i))
 
 
 def refnode(sim, uni):
